@@ -133,6 +133,19 @@ def run_ob(tr):
     if tr.get("snap_out"):
         ob.save_json_snapshot(tr["snap_out"], pretty=(tr["id"] % 3 == 0))
         count("python_snapshots_written")
+    # drain probe: sweep both sides, the trades expose the hidden queue order
+    ob.enable_trading()
+    n0 = len(st["trades"])
+    clock[0] += 1
+    ob.set_time(clock[0])
+    ob.place_order(True, ob.ask_vol() + 1, 9)
+    clock[0] += 1
+    ob.set_time(clock[0])
+    ob.place_order(False, ob.bid_vol() + 1, 9)
+    got = tl(ob.get_trades())[n0:]
+    # the Rust side stamps the sweep at (its clock)+1, +2: compare everything but the time stamps
+    if [t[1:] for t in got] != [t[1:] for t in exp["drain"]]:
+        fail("python/orderbook/sweep-executes-differently", "sweeping the book after %r executes %r, Rust core %r" % (calls[-1], got, exp["drain"]), tr)
 
 
 # ---------------------------------------------------------------------------------------------
@@ -215,6 +228,16 @@ def run_env_c18(tr):
     env2, _, _, _ = replay_env(tr)
     if env_state(env2) != st:
         fail("python/stepenv/not-deterministic-in-seed", "two replays of the same calls with seed %r differ" % tr["seed"], tr)
+    # drain probe through two more steps
+    env.enable_trading()
+    n0 = len(st["trades"])
+    env.place_order(True, env.ask_vol + 1, 9)
+    env.step()
+    env.place_order(False, env.bid_vol + 1, 9)
+    env.step()
+    got = tl(env.get_trades())[n0:]
+    if got != exp["drain"]:
+        fail("python/stepenv/sweep-executes-differently", "sweeping after %r executes %r, Rust core %r" % (calls[-1], got, exp["drain"]), tr)
 
 
 # ---------------------------------------------------------------------------------------------
